@@ -18,7 +18,7 @@ HARNESS = os.path.join(ROOT, "harness")
 BIN = os.path.join(BUILD, "target", "debug", "cwe_conf")
 CLI_TARGET = os.path.join(BUILD, "target_cli")
 CLI_BIN = os.path.join(CLI_TARGET, "debug", "cwe_checker")
-REPO = "/repo"
+REPO = os.path.realpath(os.path.join(ROOT, "repo"))   # symlink to /repo (scratch clones of /verif may re-point it)
 GUARD = "cwe_checker_verif"
 
 
